@@ -483,6 +483,13 @@ func (el *EventList) Verify(acc *Accumulator) error {
 	if err = events[count-1].hashEquals(acc.EventHash); err != nil {
 		return errors.WrapPrefix(err, "update chain has wrong hash", 0)
 	}
+	// The parent hash of the first event is not compared with anything, but it is part of what is
+	// hashed into the chain, directly followed by the revoked value: unless it is a well-formed
+	// hash (whose length is consistent with its content) bytes could be moved between the two
+	// without changing the hash of the event. For later events hashEquals() ensures this.
+	if _, err = events[0].ParentHash.Algorithm(); err != nil {
+		return errors.WrapPrefix(err, "first event of update chain has malformed parent hash", 0)
+	}
 	if el.verified {
 		if el.validationErr != nil {
 			return el.validationErr
